@@ -6,7 +6,7 @@ set -e
 pid=$1; file=$2; expr=$3; tier=${4:-quick}
 d=$(mktemp -d /tmp/mut-XXXXXX)
 mkdir -p $d/repo
-rsync -a --exclude '*.o' /repo/src $d/repo/
+rsync -a --exclude "*.o" /repo/src /repo/include $d/repo/
 sed -i "$expr" "$d/repo/$file"
 if cmp -s "$d/repo/$file" "/repo/$file"; then echo "MUTATION DID NOT APPLY"; rm -rf $d; exit 3; fi
 diff "/repo/$file" "$d/repo/$file" | head -6
